@@ -25,6 +25,9 @@ ASSUMPTIONS = {
     "A5": "A5: anything reached through dynamic dispatch outside the resolved call graph is not analysed",
     "A6": "A6: two Case atoms of one Switch are treated as mutually exclusive (patterns of distinct windows / "
           "indices do not overlap; that numeric fact is N1 and is not decided here)",
+    "A7": "A7: library facts read once from the installed Amaranth 0.5.10 and not re-derived: lib.cdc.FFSynchronizer refuses "
+          "stages < 2; Signal.like copies the init of its model; a bare 0 in Cat() is one bit wide; assignment truncates or "
+          "zero-extends to the target's width",
 }
 
 
